@@ -40,6 +40,7 @@ void h_lemma(void)
   packet.gh_id = nondet_qstr(); iq.parsed_from = nondet_int(); iq.id = nondet_qstr(); iq.to = nondet_qstr();
   gh_sent = nondet_int(); gh_cont_registered = nondet_int(); gh_cont_id = nondet_qstr();
   __CPROVER_assume(0 <= gh_sent && gh_sent < 1000 && 0 <= gh_cont_registered && gh_cont_registered < 1000);
+  gh_node_used = false;
   bool handled = false;
   switch (op) {
   case 0: OutgoingIqManager_start(self, &task, id, to); break;
